@@ -63,8 +63,10 @@ def clone(st, **kw):
     d = dict(kind=st.kind, ports=list(st.ports), sp=list(st.sp), form=st.form, brows=st.brows, bcols=st.bcols, s_rows=st.s_rows,
              s_cols=st.s_cols, map_null=st.map_null)
     d.update(kw)
-    return S(d['kind'], d['ports'], d['sp'], form=d['form'], brows=d['brows'], bcols=d['bcols'], s_rows=d['s_rows'], s_cols=d['s_cols'],
-             map_null=d['map_null'])
+    n = S(d['kind'], d['ports'], d['sp'], form=d['form'], brows=d['brows'], bcols=d['bcols'], s_rows=d['s_rows'], s_cols=d['s_cols'],
+          map_null=d['map_null'])
+    n.sid = st.sid
+    return n
 
 
 def as_line(st):
@@ -118,7 +120,8 @@ def ab_forms(stds, typ, full=False):
     types (UE14 / E12) take a row vector 'a' (no LU) and get symbolic ones throughout"""
     if typ in (UE14, E12): return [with_form(s, 'ab') for s in stds]
     out = []; done = False
-    first = 'ab' if (typ in (T8, U8) or full) else 'abk'
+    big = max(max(s.ports) for s in stds) >= 3
+    first = 'ab' if ((typ in (T8, U8) or full) and not big) else 'abk'
     for s in stds:
         if not done and len(s.ports) >= 2: out.append(with_form(s, first)); done = True
         elif not done and s is stds[-1]: out.append(with_form(s, first)); done = True
@@ -133,6 +136,7 @@ def families(typ, rows, cols):
     """dict tag -> list of Std: the canonical set and its re-descriptions (used by C01 one by one and by C17 pairwise)"""
     P = max(rows, cols)
     base = base_set(typ, rows, cols)
+    for i, st in enumerate(base): st.sid = 's%d' % i
     fam = {'base': base}
     fam['ab'] = ab_forms(base, typ)
     ln = [as_line(s) or s for s in base]
@@ -143,6 +147,9 @@ def families(typ, rows, cols):
     if P >= 2: fam['swapped'] = sw
     ab = [abbreviated(s, typ, rows, cols) or s for s in base]
     if any(s.brows is not None for s in ab): fam['abbrev'] = ab
+    if P >= 3:
+        asw = [abbreviated(swapped(s) or s, typ, rows, cols) or (swapped(s) or s) for s in base]
+        if any(s.brows is not None for s in asw): fam['abbrev-swapped'] = asw
     fam['reversed'] = base[::-1]
     if P >= 2:
         fam['rotated'] = base[1:] + base[:1]
@@ -160,18 +167,56 @@ def families(typ, rows, cols):
         fam['symbolic-line'] = [clone(s, kind='line', sp=[sym('l11'), sym('l12'), sym('l21'), sym('l22')]) if s.kind == 'through' and s.ports == [1, 2] else s for s in base]
         fam['ab-mapped'] = ab_forms([as_mapped(s, P) or s for s in base], typ)
         fam['ab-swapped'] = ab_forms([swapped(s) or s for s in base], typ)
+    # ---- other determining sets than the textbook recipe (C20) and sets that load the column systems unevenly
+    if P == 2 and typ not in (T16, U16):
+        singles = []
+        for sp in ('short', 'open', 'match'):
+            for port in (1, 2): singles.append(S('single', [port], [sp]))
+        fam['singles'] = singles + [S('through', [1, 2])]
+        la = [sym('la11'), sym('la12'), sym('la21'), sym('la22')]; lb = [sym('lb11'), sym('lb12'), sym('lb21'), sym('lb22')]
+        fam['lines-only'] = [S('through', [1, 2]), S('line', [1, 2], la), S('line', [1, 2], lb)]
+        fam['uneven'] = base + [S('single', [1], [sym('gx')])]
+        fam['uneven2'] = [S('single', [2], [sym('gy')])] + base + [S('single', [2], [sym('gx')])]
+        fam['redundant'] = base + [S('line', [2, 1], la), S('double', [2, 1], ['open', 'short'])]
+    if P == 2 and typ in (T16, U16):
+        la = [sym('la11'), sym('la12'), sym('la21'), sym('la22')]
+        fam['redundant'] = base + [S('line', [2, 1], la)]
     return fam
+
+
+QUICK3 = {(T8, 3, 3): ('base', 'abbrev', 'abbrev-swapped'), (U8, 3, 3): ('base', 'abbrev-swapped'), (TE10, 2, 3): ('base', 'abbrev-swapped'),
+          (UE14, 3, 2): ('base', 'abbrev-swapped'), (E12, 3, 3): ('base', 'swapped')}
 
 
 def configs(tier):
     maxp = 2 if tier == 'quick' else 3
     out = []
+    if tier == 'quick':
+        for (typ, rows, cols), tags in QUICK3.items():
+            fam = families(typ, rows, cols)
+            for tag in tags:
+                if tag in fam: out.append(Config(typ, rows, cols, fam[tag], name=name_of(typ, rows, cols, tag)))
     for typ in ALL:
         for rows, cols in shapes(typ, maxp):
             fam = families(typ, rows, cols)
             for tag, stds in fam.items():
-                if max(rows, cols) == 3 and tag not in ('base', 'ab', 'mapped', 'swapped', 'abbrev'): continue
+                if max(rows, cols) == 3 and tag not in ('base', 'ab', 'mapped', 'swapped', 'abbrev', 'abbrev-swapped'): continue
                 out.append(Config(typ, rows, cols, stds, name=name_of(typ, rows, cols, tag)))
+    return out
+
+
+EQUIVALENT = ('abbrev-swapped', 'ab', 'line', 'mapped', 'mapped-null', 'swapped', 'abbrev', 'reversed', 'rotated', 'ab-mapped', 'ab-swapped')
+
+
+def pairs(tier):
+    """(base, re-description) configuration names that describe the same physical information (C17)"""
+    names = set(c.name for c in configs(tier))
+    out = []
+    for c in configs(tier):
+        if not c.name.endswith('-base'): continue
+        stem = c.name[:-len('base')]
+        for t in EQUIVALENT:
+            if stem + t in names: out.append((c.name, stem + t))
     return out
 
 
